@@ -59,6 +59,10 @@ def requests(tier, rng):
             for (fn, n) in [("l_pointwise_poly_montgomery", l), ("k_pointwise_poly_montgomery", k)]:
                 a = rpoly(rng, -9 * Q + 1, 9 * Q - 1); v = [rpoly(rng, -9 * Q + 1, 9 * Q - 1) for _ in range(n)]
                 add("polyvec::%s::%s %s %s" % (lv, fn, fmt(a), V(v)), ["poly::pointwise_montgomery %s %s" % (fmt(a), fmt(x)) for x in v], fn)
+                # a zero component / a zero multiplier (outputs are pre-filled with junk by the harness)
+                vz = list(v); vz[rng.randrange(n)] = [0] * 256
+                add("polyvec::%s::%s %s %s" % (lv, fn, fmt(a), V(vz)), ["poly::pointwise_montgomery %s %s" % (fmt(a), fmt(x)) for x in vz], fn)
+                add("polyvec::%s::%s %s %s" % (lv, fn, fmt([0] * 256), V(v)), ["poly::pointwise_montgomery %s %s" % (fmt([0] * 256), fmt(x)) for x in v], fn)
             # hints
             v0 = [rpoly(rng, -2 * g2 + 1, 2 * g2 - 1) for _ in range(k)]; v1 = [rpoly(rng, 0, m - 1) for _ in range(k)]
             for i in range(k):
@@ -76,6 +80,13 @@ def requests(tier, rng):
                 w = [rpoly(rng, -2**20, 2**20) for _ in range(k)]
                 add("polyvec::%s::k_add %s %s" % (lv, V(w), V(z0)), ["poly::add_ip %s %s" % (fmt(x), fmt(y)) for x, y in zip(w, z0)], "k_add")
                 add("polyvec::%s::k_sub %s %s" % (lv, V(w), V(z0)), ["poly::sub_ip %s %s" % (fmt(x), fmt(y)) for x, y in zip(w, z0)], "k_sub")
+            # the one place where hint creation reads the high part: a0 = -gamma2 gives a hint exactly when a1 != 0.
+            # Rows with a0 = -gamma2 at several positions against high parts that are zero in some rows and non-zero in
+            # others (every single row, every complement, alternating): a row paired with another row's high parts is seen
+            for pat in pats:
+                v0 = [[(-g2 if j % 16 == (3 * i) % 16 else (g2 if j % 16 == 7 else 0)) for j in range(256)] for i in range(k)]
+                v1 = [([0] * 256 if pat[i] == 0 else [1 + (j + i) % (m - 1) for j in range(256)]) for i in range(k)]
+                add("polyvec::%s::k_make_hint %s %s" % (lv, V(v0), V(v1)), ["poly::%s::make_hint %s %s" % (lv, fmt(x), fmt(y)) for x, y in zip(v0, v1)], "k_make_hint")
             # hint creation with exactly / just below / just above omega ones after each row
             om = S.P(lv).omega
             for upto in range(k):
